@@ -70,6 +70,9 @@ func Return(e *E) *S              { return &S{K: "return", E: e} }
 func While(c *E, body ...*S) *S   { return &S{K: "while", E: c, Body: body} }
 func Probe(label, name string) *S { return &S{K: "probe", Name: label, L: Var(name)} }
 
+// RW is a read-after-write check: `target := value` then read `target` again.
+func RW(label string, target, value *E) *S { return &S{K: "rw", Name: label, L: target, E: value} }
+
 // Number assigns unique ids to statements and functions.
 func (p *Prog) Number() {
 	n := 0
@@ -260,6 +263,16 @@ func (s *S) write(b *strings.Builder, n int) {
 	case "mutex":
 		b.WriteString("mutex " + s.Name + " ")
 		writeBlock(b, s.Body, n)
+	case "rw":
+		// read-after-write check on one access expression; a failing write is acceptable (the statement speaks of successful writes)
+		lab, _ := QuoteString(s.Name, `"`)
+		b.WriteString("try { ")
+		s.L.write(b, Minimal)
+		b.WriteString(" := ")
+		s.E.write(b, Minimal)
+		fmt.Fprintf(b, "; t.rec([%s, ", lab)
+		s.L.write(b, Minimal)
+		fmt.Fprintf(b, "]) } except { t.rec([%s, \"ERR\"]) }", lab)
 	case "probe":
 		// visibility probe: the name may be invisible here; null or an error are both acceptable then
 		lab, _ := QuoteString(s.Name, `"`)
